@@ -2,8 +2,8 @@
 `empty_loop` (selene-lib/src/lints/empty_loop.rs), default configuration (`comments_count = false`).
 -/
 import Selene.Lints.TraverseB
-namespace Selene.Lints.EmptyLoop
-open Selene.Lua Selene.Lints
+namespace Selene.LintsB.EmptyLoop
+open Selene.Lua Selene.LintsB
 
 def blockIsEmpty : Block → Bool
   | .mk _ .nil .none => true
@@ -32,4 +32,4 @@ namespace Doc
 def noStatements (b : Block) : Prop := blockStmts b = .nil ∧ blockLast b = .none
 end Doc
 
-end Selene.Lints.EmptyLoop
+end Selene.LintsB.EmptyLoop
